@@ -6,7 +6,7 @@ from . import C10, C01
 
 META = {
     "level": "other",
-    "explanation": "Inversion structure of the byte-transforming wrappers: (R1) ProcessXor is self-inverse, so _parse and _build must apply the very same function: the key normalisation and, per combination of configuration guards, the transform term applied to the incoming data are identical in both methods, including the zero-key shortcuts; (R2) ProcessRotateLeft._build is ProcessRotateLeft._parse with amount replaced by -amount at the single place where `amount % (group*8)` is formed: after that substitution the guards, the branch conditions and the three transform terms (table / byte-index / bit-pair) are identical; (R3) ByteSwapped/BitsSwapped instantiate Transformed/Restreamed with an involution as both decoder and encoder over exactly sizeof(subcon) units (shared machinery with C10.R1/R2); (R4) Tunnel decodes on parse and encodes on build around the inner construct, Compressed uses decompress/compress (decode/encode) of the same library object selected by the same condition, the compression level only on the compress side.",
+    "explanation": "Inversion structure of the byte-transforming wrappers: (R1) ProcessXor is self-inverse, so _parse and _build must apply the very same function: the key normalisation and, per combination of configuration guards, the transform term applied to the incoming data are identical in both methods, including the zero-key shortcuts; (R2) ProcessRotateLeft._build is ProcessRotateLeft._parse with amount replaced by -amount at the single place where `amount % (group*8)` is formed: after that substitution the guards, the branch conditions and the three transform terms (table / byte-index / bit-pair) are identical; (R3) ByteSwapped/BitsSwapped instantiate Transformed/Restreamed with an involution as both decoder and encoder over exactly sizeof(subcon) units (shared machinery with C10.R1/R2); (R4) Tunnel decodes on parse and encodes on build around the inner construct, Compressed uses decompress/compress (decode/encode) of the same library object selected by the same condition, the compression level only on the compress side. R4 also: every return of Compressed._encode/_decode is the codec's result on the data (no one-sided shortcut); (R5) byte ranges of the rotation table and bit-pair kernels by interval analysis, names resolved by def-use; (R6) direction: the single-byte table is [rotl8(i, amount)] for amount 1..7, the bit-pair kernel takes the high part from byte j+q shifted left by r = amount % 8 and the low part from the cyclically next byte shifted right by 8-r, the whole-byte kernel moves byte (j+q) mod group to j, the single-byte kernel indexes the table by the normalised amount.",
     "undecided": "'Match their definition' -- the XOR / rotation / codec arithmetic itself is numerical; thorough tier adds the byte-range obligations of the rotation formulas (engine I).",
     "trusted_base": ["python ast (3.12)", "sa.summ summariser", "sa/tables.py inverse pairs and unit ratios"],
     "assumptions": [],
